@@ -7,6 +7,8 @@
 -/
 import I3.Gen.GoKeccak
 import I3.Gen.GoFF
+import I3.Gen.GoFFLimb
+import I3.Gen.GoFFGLimb
 import I3.Gen.GoKeccak
 import I3.Gen.GoFFG
 import I3.Gen.GoUtils
@@ -65,6 +67,68 @@ def parseSrc? (kind payload : String) : Option I3.Go.Any :=
   | _ => none
 
 def zeros (n : Nat) : Bytes := List.replicate n 0
+
+/-! limb-level ops: an operand arrives as an integer; the element is built by the GENERATED `SetBigInt` into a
+    destination whose limbs are all stale, results are read back through the GENERATED `ToBigIntRegular`. -/
+def stale (n : Nat) : List Nat := (List.range n).map fun i => 0xdeadbeef00000001 + i
+def ffEl (v : Int) : List Nat := (ffl_Element_SetBigInt (stale 4) v).1
+def ffgEl (v : Int) : List Nat := (ffgl_Element_SetBigInt (stale 1) v).1
+def ffVal (l : List Nat) : String := toString (ffl_Element_ToBigIntRegular l (-5)).1
+def ffgVal (l : List Nat) : String := toString (ffgl_Element_ToBigIntRegular l (-5)).1
+
+def limbOp (ff : Bool) (op : String) (args : List String) : Option String := do
+  let el := fun (v : Int) => if ff then ffEl v else ffgEl v
+  let val := fun (l : List Nat) => if ff then ffVal l else ffgVal l
+  let n := if ff then 4 else 1
+  match op, args with
+  | "setbigint", [v] => pure (val (el (← parseInt? v)))
+  | "setstring", [v] => pure (val (if ff then (ffl_Element_SetString (stale n) v).1 else (ffgl_Element_SetString (stale n) v).1))
+  | "setbytes", [b] =>
+    let b ← parseBytes? b
+    pure (val (if ff then (ffl_Element_SetBytes (stale n) b).1 else (ffgl_Element_SetBytes (stale n) b).1))
+  | "setuint64", [v] =>
+    let v ← parseNat? v
+    let z := if ff then (ffl_Element_SetUint64 (stale n) v).1 else (ffgl_Element_SetUint64 (stale n) v).1
+    let z2 := if ff then ffl_NewElementFromUint64 v else ffgl_NewElementFromUint64 v
+    pure (if z == z2 then val z else val z ++ "!NewElementFromUint64-differs")
+  | "tobigint", [x] => pure (val (el (← parseInt? x)))
+  | "montbigint", [x] =>
+    let l := el (← parseInt? x)
+    pure (toString (if ff then (ffl_Element_ToBigInt l 0).1 else (ffgl_Element_ToBigInt l 0).1))
+  | "bytes", [x] =>
+    let l := el (← parseInt? x)
+    let (b, m) := if ff then (ffl_Element_Bytes l, ffl_Element_Marshal l) else (ffgl_Element_Bytes l, ffgl_Element_Marshal l)
+    pure (if b == m then showBytes b else showBytes b ++ "!Marshal-differs")
+  | "string", [x] =>
+    let l := el (← parseInt? x)
+    pure (if ff then ffl_Element_String l else ffgl_Element_String l)
+  | "cmp", [x, y] =>
+    let (a, b) := (el (← parseInt? x), el (← parseInt? y))
+    pure (toString (if ff then ffl_Element_Cmp a b else ffgl_Element_Cmp a b))
+  | "equal", [x, y] =>
+    let (a, b) := (el (← parseInt? x), el (← parseInt? y))
+    pure (showBool (if ff then ffl_Element_Equal a b else ffgl_Element_Equal a b))
+  | "lex", [x] =>
+    let l := el (← parseInt? x)
+    pure (showBool (if ff then ffl_Element_LexicographicallyLargest l else ffgl_Element_LexicographicallyLargest l))
+  | "iszero", [x] =>
+    let l := el (← parseInt? x)
+    pure (showBool (if ff then ffl_Element_IsZero l else ffgl_Element_IsZero l))
+  | "isuint64", [x] =>
+    let l := el (← parseInt? x)
+    pure (showBool (if ff then ffl_Element_IsUint64 l else ffgl_Element_IsUint64 l))
+  | "bitlen", [x] =>
+    let l := el (← parseInt? x)
+    pure (toString (if ff then ffl_Element_BitLen l else ffgl_Element_BitLen l))
+  | "bit", [x, i] =>
+    let l := el (← parseInt? x)
+    let i ← parseNat? i
+    pure (toString (if ff then ffl_Element_Bit l i else ffgl_Element_Bit l i))
+  | "one", [] =>
+    let (o, z) := if ff then (ffl_One, (ffl_Element_SetOne (stale n)).1) else (ffgl_One, (ffgl_Element_SetOne (stale n)).1)
+    pure (if o == z then val z else "!One-differs")
+  | "modulus", [] => pure (toString (if ff then ffl_Modulus else ffgl_Modulus))
+  | _, _ => pure "-"
 
 def showSig (s : (Int × Int) × Int) : String := s!"{showPt s.1} {s.2}"
 
@@ -251,7 +315,10 @@ def genOp (op : String) (pat : String) (args : List String) : Option String := d
   | "u.swap", [b] => pure (showBytes (utils_SwapEndianness (← parseBytes? b)))
   | "u.infield", [v] => pure (showBool (utils_CheckBigIntInField (← parseInt? v)))
   | "u.arrinfield", [l] => pure (showBool (utils_CheckBigIntArrayInField (← parseIntList? l)))
-  | _, _ => pure "-"
+  | _, _ =>
+    if op.startsWith "ff." then limbOp true (op.drop 3).toString args
+    else if op.startsWith "ffg." then limbOp false (op.drop 4).toString args
+    else pure "-"
 
 def step (line : String) : String :=
   match (line.trimAscii.toString.splitOn " ").filter (· ≠ "") with
